@@ -7,13 +7,13 @@ Every witness was replayed on the real code (see `corpus/C03/witnesses.sexp` and
 namespace LokiModel.C03
 
 def vsrc (text : Lines) (l0 l1 : Nat) : Option Src := some ⟨.valid, text, l0, l1⟩
-def leaf (k : Kind) (lbl : Nat) (text : Lines) (l : Nat) : Node := .mk ⟨k, lbl, false, false, none, true⟩ (vsrc text l l) [] []
+def leaf (k : Kind) (lbl : Nat) (text : Lines) (l : Nat) : Node := .mk ⟨k, lbl, false, false, none, true, none⟩ (vsrc text l l) [] []
 
 /-! ### emptied-node-stays-valid (repaired): `do i = 1, n / a(i) = 1.0 / end do`, mapper `{a(i) = 1.0: None}` -/
 
 def wAssign : Node := leaf .assign 2 ["    a(i) = 1.0"] 7
-def wLoop : Node := .mk ⟨.loop, 1, false, false, none, true⟩ (vsrc ["  do i = 1, n", "    a(i) = 1.0", "  end do"] 6 8) [wAssign] []
-def wBody : Node := .mk ⟨.section, 0, false, false, none, true⟩
+def wLoop : Node := .mk ⟨.loop, 1, false, false, none, true, none⟩ (vsrc ["  do i = 1, n", "    a(i) = 1.0", "  end do"] 6 8) [wAssign] []
+def wBody : Node := .mk ⟨.section, 0, false, false, none, true, none⟩
   (vsrc ["  do i = 1, n", "    a(i) = 1.0", "  end do", "  a(1) = 2.0"] 6 9) [wLoop, leaf .assign 3 ["  a(1) = 2.0"] 9] []
 def wMap : Mapper := [(wAssign, .drop)]
 def wRender : Render := fun _ => {}
@@ -33,7 +33,7 @@ theorem C03_emptied_repaired_output :
 /-! ### elseif-flag-leaks (repaired): `if / else if / else if / end if` re-flagged by the identity transformer -/
 
 def cnd (lbl : Nat) (ei : Bool) (text : Lines) (l0 l1 : Nat) (body els : List Node) : Node :=
-  .mk ⟨.cond, lbl, false, ei, none, true⟩ (vsrc text l0 l1) body els
+  .mk ⟨.cond, lbl, false, ei, none, true, none⟩ (vsrc text l0 l1) body els
 
 def wChain : Node :=
   cnd 1 true ["if (x > 0.) then", "  y = 1.", "else if (x > 1.) then", "  y = 2.", "else if (x > 2.) then", "  y = 3.", "end if"] 1 7
@@ -66,5 +66,26 @@ def wMulti : Node :=
 theorem C03_multiline_header_witness :
     tilesB wRender false wMulti = false ∧
     cgen wRender 0 false (visitRoot false [] wMulti) = .some ["if (x > 0. .and. &", "  z = 1.", "end if"] := by decide
+
+/-! ### named-else-not-found (repaired): `chk: if … else chk … end if chk`, with a nested `else if` and another construct's `else` -/
+
+def ncnd (lbl : Nat) (ei : Bool) (nm : Option String) (text : Lines) (l0 l1 : Nat) (body els : List Node) : Node :=
+  .mk ⟨.cond, lbl, false, ei, none, true, nm⟩ (vsrc text l0 l1) body els
+
+def wNamed : Node :=
+  ncnd 1 false (some "chk")
+    ["chk: if (x > 0.) then", "  y = 1.", "else chk", "  if (y > 0.) then", "    z = 1.", "  else if (z > 0.) then", "    z = 2.",
+     "  end if", "end if chk"] 1 9
+    [leaf .assign 2 ["  y = 1."] 2]
+    [ncnd 3 true none ["  if (y > 0.) then", "    z = 1.", "  else if (z > 0.) then", "    z = 2.", "  end if"] 4 8
+      [leaf .assign 4 ["    z = 1."] 5]
+      [ncnd 5 false none ["  else if (z > 0.) then", "    z = 2.", "  end if"] 6 8 [leaf .assign 6 ["    z = 2."] 7] []]]
+
+/-- the named construct tiles and is printed verbatim after re-flagging (it raised `IndexError`); the nested `else if` line is
+not taken for the else line -/
+theorem C03_named_else_repaired :
+    tilesB wRender false wNamed = true ∧
+    cgen wRender 0 false (visitRoot false [] wNamed) = (match wNamed.src with | some s => .some s.text | none => .none) := by
+  decide
 
 end LokiModel.C03
